@@ -250,14 +250,10 @@ theorem C05_lift_const (liftAll : Bool) (limit : Nat) (m : Model) (hv : validMod
       · exact Or.inl
   · rfl
 
-/-- **C05_dedup_partial** — DeduplicateInitializersPass / DeduplicateHashedInitializersPass (any size
-    limit; main graph and subgraphs, uses inside subgraphs replaced).  PARTIAL: the extra hypothesis
-    `dedupFaithfulG` (within every graph, initializers with equal keys (dtype, shape, `_tobytes`) are
-    equal tensors) excludes exactly the inputs of the recorded defect D37: string tensors that differ
-    only in trailing NUL bytes get the same key because `_tobytes` NUL-pads every element.  For
-    numeric tensors the key is the tensor, so the hypothesis holds. -/
-theorem C05_dedup_partial (limit : Nat) (m : Model) (hv : validModel m = true)
-    (hfa : dedupFaithfulG m.graph = true) : Preserves (dedupModel limit) m := by
+/-- **C05_dedup** — DeduplicateInitializersPass / DeduplicateHashedInitializersPass (any size limit; main
+    graph and subgraphs, uses inside subgraphs replaced; initializers that are graph inputs or outputs are
+    left alone).  The key (dtype, shape, bytes / strings) is the tensor (fixed key of D37). -/
+theorem C05_dedup (limit : Nat) (m : Model) (hv : validModel m = true) : Preserves (dedupModel limit) m := by
   obtain ⟨g, fs⟩ := m
   simp only [validModel, Bool.and_eq_true, List.all_eq_true] at hv
   obtain ⟨hg, _⟩ := hv
@@ -266,7 +262,7 @@ theorem C05_dedup_partial (limit : Nat) (m : Model) (hv : validModel m = true)
   · intro Val I xs
     simp only [denote, dedupModel]
     exact (congrFun (dedupG_sound I limit g [] Env.empty Env.empty (fun v => by rw [Subst.app_nil])
-      (fun p hp => by simp at hp) hg.1 hg.2.1 hfa) xs).symm
+      (fun p hp => by simp at hp) hg.1 hg.2.1) xs).symm
   · intro Val I k ρ xs; rfl
   · cases g with
     | mk inputs outputs inits nodes => simp [dedupModel, dedupG, Graph.outputs]
@@ -450,9 +446,7 @@ theorem C05_pass (p : PassId) (m : Model) (h : p.pre m = true) : Preserves p.run
   | dce => exact C05_dce m h
   | identity => exact C05_identity m h
   | cse limit => exact C05_cse limit m h
-  | dedup limit =>
-    simp only [PassId.pre, Bool.and_eq_true] at h
-    exact C05_dedup_partial limit m h.1 h.2
+  | dedup limit => exact C05_dedup limit m h
   | liftConst a l => exact C05_lift_const a l m h
   | liftSubInits => exact C05_lift_sub_inits m h
   | rmInitInputs => exact C05_rm_init_inputs m
@@ -465,8 +459,7 @@ theorem C05_pass (p : PassId) (m : Model) (h : p.pre m = true) : Preserves p.run
 /-- **C05_compose** — any sequence (any length) of the modelled passes preserves what the model
     computes, the number of outputs and the non-initializer inputs, provided every pass of the
     sequence meets a model satisfying its assumptions (`chainOK`, evaluated by the driver on every
-    generated sequence; for sequences without DeduplicateInitializers it says that every intermediate
-    model is SSA, closed and topologically ordered). -/
+    generated sequence: every intermediate model is SSA, closed, topologically ordered and scoped). -/
 theorem C05_compose : ∀ (ps : List PassId) (m : Model), chainOK ps m = true → Preserves (runPasses ps) m
   | [], m, _ => ⟨fun _ _ _ => rfl, fun _ _ _ _ _ => rfl, rfl, rfl, rfl⟩
   | p :: ps, m, h => by
